@@ -187,6 +187,27 @@ impl SubCheck for Constructed {
         };
         cov.eval();
         check_network_api(&net, &want)?;
+        // renaming actor ids (what symmetry reduction does to a state) neither loses nor adds a
+        // message: under the identity plan the network is unchanged, under a reversal the
+        // contents are the renamed contents
+        {
+            use stateright::actor::Id;
+            use stateright::{Rewrite, RewritePlan};
+            let ids = c.envs.iter().flat_map(|(s, d, _)| [*s, *d]).chain(c.last.iter().flat_map(|(s, d, _)| [*s, *d])).max().map_or(1, |m| m + 1);
+            let identity: RewritePlan<Id, _> = RewritePlan::from_values_to_sort(&(0..ids).collect::<Vec<_>>());
+            let same = net.rewrite(&identity);
+            check_network_api(&same, &want).map_err(|f| Fail::new(format!("{}/after-identity-rewrite", f.sig), f.detail))?;
+            let reversal: RewritePlan<Id, _> = RewritePlan::from_values_to_sort(&(0..ids).rev().collect::<Vec<_>>());
+            let renamed = net.rewrite(&reversal);
+            let mut want_renamed = RNet::new(c.kind);
+            for (s, d, m) in &c.envs {
+                want_renamed.send(ids - 1 - s, ids - 1 - d, *m);
+            }
+            if let RNet::Dup(_, l) = &mut want_renamed {
+                *l = c.last.map(|(s, d, m)| (ids - 1 - s, ids - 1 - d, m));
+            }
+            check_network_api(&renamed, &want_renamed).map_err(|f| Fail::new(format!("{}/after-renaming-rewrite", f.sig), f.detail))?;
+        }
         let dup_copies = {
             let mut v = c.envs.clone();
             v.sort();
